@@ -371,6 +371,9 @@ func (e *Exec) mapLookup(m *MapObj, k Value, vt types.Type) (Value, *Term) {
 	if m == nil {
 		return e.zero(vt), tb.F
 	}
+	if e.race != nil {
+		e.raceAccess(fmt.Sprintf("map%d", m.ID), false)
+	}
 	if kt, ok := k.(*Term); ok {
 		k = e.subst(kt)
 	}
@@ -428,6 +431,9 @@ func (e *Exec) mapUpdate(m *MapObj, k, v Value) {
 	if m.Frozen && !e.w.initializing {
 		panic(unsupported("write to package-level map"))
 	}
+	if e.race != nil {
+		e.raceAccess(fmt.Sprintf("map%d", m.ID), true)
+	}
 	if kt, ok := k.(*Term); ok {
 		k = e.subst(kt)
 	}
@@ -451,6 +457,9 @@ func (e *Exec) mapDelete(m *MapObj, k Value) {
 	}
 	if m.Frozen && !e.w.initializing {
 		panic(unsupported("delete from package-level map"))
+	}
+	if e.race != nil {
+		e.raceAccess(fmt.Sprintf("map%d", m.ID), true)
 	}
 	for i, en := range m.Entries {
 		c := e.keyEq(en.K, k)
